@@ -246,7 +246,13 @@ func (r *renderer) render0(t *Term) string {
 			if e.coef.IsConst() && e.coef.Val.Cmp(big1) == 0 {
 				one = r.render(e.atom)
 			} else {
-				one = fmt.Sprintf("(smul %s %s)", r.render(e.coef), r.render(e.atom))
+				cs, as := r.render(e.coef), r.render(e.atom)
+				one = fmt.Sprintf("(smul %s %s)", cs, as)
+				if !e.coef.IsConst() {
+					// ground instances of the module axioms 0*P = O, 1*P = P for symbolic coefficients
+					r.addSide(fmt.Sprintf("(=> (= %s 0) (= %s PtO))", cs, one))
+					r.addSide(fmt.Sprintf("(=> (= %s 1) (= %s %s))", cs, one, as))
+				}
 			}
 			if cur == "" {
 				cur = one
